@@ -21,18 +21,28 @@ CONSTANTS Reqs,                 \* request ids
           D_InPlaceAppend,      \* F4/F5: the per-request chain is built with append() on the shared slices
           D_LazyFallbackInit,   \* F6: r.noRoute is assigned on first use, inside the request
           D_EarlyPut,           \* deviation: the context goes back to the pool before the chain has finished
-          D_PutBeforeHook       \* deviation: after a panic the context is released before the OnPanic hook has run
+          D_PutBeforeHook,      \* deviation: after a panic the context is released before the OnPanic hook has run
+          D_RedispatchPuts      \* F23: Router.HandleContext puts the context into the pool although the request that
+                                \*      re-dispatched is still using it (and ServeHTTP will put it a second time)
 
 VARIABLES garr,     \* array "G": cells 1..GCap
           rarr,     \* route -> array "R:k": cells 1..MwCap
           noRoute,  \* "unset" | "set"
-          pool,     \* set of idle context ids
+          pool,     \* BAG of idle contexts: context id -> how many times it is in the pool (sync.Pool does not de-duplicate)
           nextCtx,  \* number of contexts created so far
           pc, ctx, chain, own, pos, log,
+          tk,       \* request -> the route kind being dispatched now (differs from KindOf after a re-dispatch)
+          phase,    \* request of kind "rd": 0 outer chain, 1 inner chain (HandleContext), 2 back in the re-dispatching handler, 3 returned
           writers, readers   \* cell -> requests that wrote / read it while serving (for the race check)
-svars == <<garr, rarr, noRoute, pool, nextCtx, pc, ctx, chain, own, pos, log, writers, readers>>
+svars == <<garr, rarr, noRoute, pool, nextCtx, pc, ctx, chain, own, pos, log, tk, phase, writers, readers>>
 
-Routes == {"a", "b", "p"}          \* the main handler of route "p" panics; an OnPanic hook is installed
+\* the main handler of route "p" panics (an OnPanic hook is installed); the main handler of route "rd" rewrites the request
+\* path to "/a", calls Router.HandleContext(c) and, when that returns, does some more work on its context ("after")
+Routes == {"a", "b", "p", "rd"}
+After     == <<"after", "rd">>
+CtxIds    == 1..Cardinality(Reqs)
+EmptyBag  == [c \in CtxIds |-> 0]
+Put(c)    == pool' = [pool EXCEPT ![c] = @ + 1]
 Hook      == <<"hook">>
 G(i)      == <<"g", i>>
 Mw(k, i)  == <<"mw", k, i>>
@@ -48,7 +58,8 @@ Cells == { CellG(i) : i \in 1..GCap } \cup { CellR(k, i) : k \in Routes, i \in 1
 Init == /\ garr = [i \in 1..GCap |-> IF i <= GLen THEN G(i) ELSE Nil]
         /\ rarr = [k \in Routes |-> [i \in 1..MwCap |-> IF i <= MwLen THEN Mw(k, i) ELSE Nil]]
         /\ noRoute = IF D_LazyFallbackInit THEN "unset" ELSE "set"
-        /\ pool = {} /\ nextCtx = 0
+        /\ pool = EmptyBag /\ nextCtx = 0
+        /\ tk = [r \in Reqs |-> KindOf(r)] /\ phase = [r \in Reqs |-> 0]
         /\ pc = [r \in Reqs |-> "new"] /\ ctx = [r \in Reqs |-> 0]
         /\ chain = [r \in Reqs |-> [arr |-> "none", len |-> 0]]
         /\ own = [r \in Reqs |-> <<>>] /\ pos = [r \in Reqs |-> 0] /\ log = [r \in Reqs |-> <<>>]
@@ -57,6 +68,7 @@ Init == /\ garr = [i \in 1..GCap |-> IF i <= GLen THEN G(i) ELSE Nil]
 \* what the request would log if it were alone
 SoloP(k, gl, ml) == [i \in 1..gl |-> G(i)] \o (IF k = "nf" THEN <<NF>> ELSE [i \in 1..ml |-> Mw(k, i)] \o <<MainOf(k)>>)
                     \o (IF k = "p" THEN <<Hook>> ELSE <<>>)          \* recover -> r.OnPanic(ctx), then the context is released
+                    \o (IF k = "rd" THEN [i \in 1..gl |-> G(i)] \o [i \in 1..ml |-> Mw("a", i)] \o <<MainOf("a"), After>> ELSE <<>>)
 Solo(r)  == SoloP(KindOf(r), GLen, MwLen)
 
 Touch(ws, rs) ==   \* record accesses of request-level steps: ws / rs = sets of <<cell, request>>
@@ -66,17 +78,17 @@ Touch(ws, rs) ==   \* record accesses of request-level steps: ws / rs = sets of 
 \* ---- ServeHTTP: ctx := pool.Get() ------------------------------------------------------------
 Acquire(r) ==
   /\ pc[r] = "new"
-  /\ IF pool # {}
-     THEN \E c \in pool : ctx' = [ctx EXCEPT ![r] = c] /\ pool' = pool \ {c} /\ UNCHANGED nextCtx
+  /\ IF pool # EmptyBag
+     THEN \E c \in CtxIds : pool[c] > 0 /\ ctx' = [ctx EXCEPT ![r] = c] /\ pool' = [pool EXCEPT ![c] = @ - 1] /\ UNCHANGED nextCtx
      ELSE ctx' = [ctx EXCEPT ![r] = nextCtx + 1] /\ nextCtx' = nextCtx + 1 /\ UNCHANGED pool
   /\ pc' = [pc EXCEPT ![r] = "start"]
-  /\ UNCHANGED <<garr, rarr, noRoute, chain, own, pos, log, writers, readers>>
+  /\ UNCHANGED <<garr, rarr, noRoute, chain, own, pos, log, tk, phase, writers, readers>>
 
 \* ---- handleHTTPRequest up to ctx.SetHandlers: resolve + the two appends -----------------------------
 \* handlers = append(route.handlers, route.handler);  handlers = append(r.handlers, handlers...)
 Start(r) ==
   /\ pc[r] = "start"
-  /\ LET k == KindOf(r) IN
+  /\ LET k == tk[r] IN
      IF k = "nf"
      THEN \* if len(r.noRoute) == 0 { r.noRoute = HandlersChain{internal404Handler} }; handlers = r.noRoute
           LET lazy == noRoute = "unset"
@@ -114,7 +126,7 @@ Start(r) ==
                    { <<CellR(k, i), r>> : i \in 1..MwLen } \cup { <<CellG(i), r>> : i \in 1..GLen })
           /\ UNCHANGED noRoute
   /\ pc' = [pc EXCEPT ![r] = "run"] /\ pos' = [pos EXCEPT ![r] = 1]
-  /\ UNCHANGED <<pool, nextCtx, ctx, log>>
+  /\ UNCHANGED <<pool, nextCtx, ctx, log, tk, phase>>
 
 \* ---- one handler boundary: c.handlers[c.index](c) -----------------------------------------------------
 CellValue(r, i) == CASE chain[r].arr = "G"   -> garr[i]
@@ -124,23 +136,35 @@ CellName(r, i)  == CASE chain[r].arr = "G"   -> {<<CellG(i), r>>}
                      [] chain[r].arr = "own" -> {}
                      [] OTHER                -> {<<CellR(chain[r].arr, i), r>>}
 Hooked(r) == KindOf(r) = "p"
+Redisp(r) == KindOf(r) = "rd"
 Boundary(r) ==
   /\ pc[r] = "run"
   /\ IF pos[r] <= chain[r].len
      THEN /\ log' = [log EXCEPT ![r] = Append(@, CellValue(r, pos[r]))]
           /\ pos' = [pos EXCEPT ![r] = @ + 1]
           /\ Touch({}, CellName(r, pos[r]))
-          /\ IF (D_EarlyPut /\ pos[r] = 1) \/ (D_PutBeforeHook /\ Hooked(r) /\ pos[r] = chain[r].len)
-             THEN pool' = pool \cup {ctx[r]} ELSE UNCHANGED pool
-          /\ UNCHANGED pc
+          /\ IF (D_EarlyPut /\ pos[r] = 1 /\ phase[r] = 0) \/ (D_PutBeforeHook /\ Hooked(r) /\ pos[r] = chain[r].len)
+                \/ (D_RedispatchPuts /\ phase[r] = 1 /\ pos[r] = chain[r].len)   \* the inner chain is over: HandleContext -> ctxPool.Put(c)
+             THEN Put(ctx[r]) ELSE UNCHANGED pool
+          /\ phase' = IF phase[r] = 1 /\ pos[r] = chain[r].len THEN [phase EXCEPT ![r] = 2] ELSE phase
+          /\ UNCHANGED <<pc, tk>>
      ELSE IF Hooked(r) /\ pos[r] = chain[r].len + 1
      THEN \* the main handler panicked: handleHTTPRequest recovers and runs r.OnPanic(ctx) on the same context
           /\ log' = [log EXCEPT ![r] = Append(@, Hook)]
           /\ pos' = [pos EXCEPT ![r] = @ + 1]
-          /\ UNCHANGED <<pc, pool, writers, readers>>
+          /\ UNCHANGED <<pc, pool, writers, readers, tk, phase>>
+     ELSE IF Redisp(r) /\ phase[r] = 0
+     THEN \* the main handler of "rd" has logged and calls HandleContext: Reset, then resolve + assemble again (Start)
+          /\ pc' = [pc EXCEPT ![r] = "start"] /\ tk' = [tk EXCEPT ![r] = "a"] /\ phase' = [phase EXCEPT ![r] = 1]
+          /\ UNCHANGED <<log, pos, pool, writers, readers>>
+     ELSE IF Redisp(r) /\ phase[r] = 2
+     THEN \* HandleContext has returned; the re-dispatching handler goes on working with its context
+          /\ log' = [log EXCEPT ![r] = Append(@, After)]
+          /\ phase' = [phase EXCEPT ![r] = 3]
+          /\ UNCHANGED <<pc, pos, pool, writers, readers, tk>>
      ELSE /\ pc' = [pc EXCEPT ![r] = "done"]
-          /\ pool' = pool \cup {ctx[r]}                              \* r.ctxPool.Put(ctx)
-          /\ UNCHANGED <<log, pos, writers, readers>>
+          /\ Put(ctx[r])                                             \* ServeHTTP: r.ctxPool.Put(ctx)
+          /\ UNCHANGED <<log, pos, writers, readers, tk, phase>>
   /\ UNCHANGED <<garr, rarr, noRoute, nextCtx, ctx, chain, own>>
 
 Next == \E r \in Reqs : Acquire(r) \/ Start(r) \/ Boundary(r)
@@ -149,7 +173,9 @@ Next == \E r \in Reqs : Acquire(r) \/ Start(r) \/ Boundary(r)
 InFlight(r) == pc[r] \in {"start", "run"}
 NoInterference == \A r \in Reqs : /\ pc[r] = "done" => log[r] = Solo(r)
                                   /\ \A i \in 1..Len(log[r]) : log[r][i] = Solo(r)[i]
-NoSharedCtx    == \A r1, r2 \in Reqs : (r1 # r2 /\ InFlight(r1) /\ InFlight(r2)) => ctx[r1] # ctx[r2]
+NoSharedCtx    == /\ \A r1, r2 \in Reqs : (r1 # r2 /\ InFlight(r1) /\ InFlight(r2)) => ctx[r1] # ctx[r2]
+                  /\ \A r \in Reqs : InFlight(r) => pool[ctx[r]] = 0       \* a context in use is not in the pool ...
+                  /\ \A c \in CtxIds : pool[c] <= 1                        \* ... and no context is in the pool twice
 \* requests are not ordered by any synchronisation, so a cell written by one request while serving and touched
 \* by another request is a data race whatever the interleaving
 NoModelRace    == \A c \in Cells : \A w \in writers[c] : (writers[c] \cup readers[c]) \subseteq {w}
